@@ -198,7 +198,7 @@ def short_check(c):
 
 
 def is_harness_check(c):
-    return "verif_kani" in check_loc(c) or "verif_kani" in (c.get("function") or "")
+    return "src/verif_kani/" in check_loc(c) or (c.get("function") or "").startswith("verif_kani::")
 
 
 def classify_harness(unit_expect, r):
@@ -242,7 +242,9 @@ def classify_harness(unit_expect, r):
             desc = c.get("description") or ""
             where = (c.get("function") or "") + " @ " + check_loc(c)
             s = desc + " || " + where
-            if is_harness_check(c) or MEMSAFE_PAT.search(desc) and not any(p.search(s) for p in pats):
+            if is_harness_check(c) or MEMSAFE_PAT.search(desc):
+                # a harness assertion (the call returned / state changed) or a memory-safety
+                # check (a write outside the container) - never an acceptable way to fail
                 bad.append(c)
             elif any(p.search(s) for p in pats):
                 expected_hit = True
